@@ -24,6 +24,7 @@ RULE = ("poised interpolation sets reached by random update histories on a "
         "index)")
 RULE += ("  Also: the order of queries on one set varies (all indices first / one index first / shuffled); in real runs the index handed to update_interpolation must be the one get_index_to_remove chose FOR THE INSERTED POINT (tap pair), on problems rich in second-order corrections.")
 RULE += (" The point inserted after a geometry step is the point the step was rated for; more real runs with constraints and bounds.")
+RULE += (' The conditioning allowance is capped by the centred set; settled real runs are queried late.')
 ASSUMPTIONS = [
     "tolerance N*eps*cond2(scaled KKT)*(|alpha|*(|s|^4/2+sum|w_i y_i|)+tau^2) (the terms beta is a difference of): held <= 1e3x, "
     "violation > 1e6x, sets with cond2 > 1e8 skipped (no claim)",
